@@ -44,7 +44,7 @@ Section IterProofs.
   Notation bump := (bump rtl).
   Notation scan_loop := (scan_loop rtl len attempt).
   Notation scan := (scan rtl len attempt).
-  Notation run := (run rtl len attempt).
+  Notation run := (re_run rtl len attempt).
   Notation find_next_match := (find_next_match rtl len attempt).
   Notation find_runes_match_starting_at := (find_runes_match_starting_at rtl len attempt).
   Notation search_from := (search_from rtl len attempt).
@@ -170,7 +170,7 @@ Section IterProofs.
   Qed.
 
   Lemma run_ok ts prevlen : 0 <= ts <= len -> run dflt ts prevlen = Ok (scan_p ts prevlen).
-  Proof. intros Ht. unfold Iter.run. assert (ts <? 0 = false) as -> by lia. apply scan_ok; exact Ht. Qed.
+  Proof. intros Ht. unfold Iter.re_run. assert (ts <? 0 = false) as -> by lia. apply scan_ok; exact Ht. Qed.
 
   Lemma wfm_textpos m : wfm m -> 0 <= m_textpos m <= len.
   Proof. unfold wfm, shaped. intuition. Qed.
@@ -291,7 +291,7 @@ Section IterProofs.
         else search_from fuel (m_textpos m) (m_textpos m + bump)
       else search_from fuel (m_textpos m) (m_textpos m).
   Proof.
-    intros H. unfold Iter.find_next_match, Iter.run, Iter.scan, Iter.search_from.
+    intros H. unfold Iter.find_next_match, Iter.re_run, Iter.scan, Iter.search_from.
     assert (m_textpos m <? 0 = false) as -> by lia. reflexivity.
   Qed.
 
@@ -307,7 +307,7 @@ Section IterProofs.
   Lemma search_from_noG : no_G -> forall fuel ts pos, 0 <= pos ->
     search_from fuel ts pos = find_runes_match_starting_at fuel pos.
   Proof.
-    intros HG fuel ts pos Hp. unfold Iter.search_from, Iter.find_runes_match_starting_at, Iter.run, Iter.scan.
+    intros HG fuel ts pos Hp. unfold Iter.search_from, Iter.find_runes_match_starting_at, Iter.re_run, Iter.scan.
     assert (pos <? 0 = false) as -> by lia. cbn. apply scan_loop_noG; exact HG.
   Qed.
 
